@@ -362,6 +362,29 @@ def r3(repo, res):
                found=f"gene {gene}; neutral {neutral}; profile {profile}",
                clause="the normalised depth of a two-copy reference reads as 2.0 (all three depths must be measured the same way)",
                key=f"sibling-depth:{name}")
+    # ops outside the DNA table (reference skip N, padding P): the SAM table is not the yardstick here (the walkers ignore them),
+    # but a sample measured against its own profile reads 2.0 only if all three walkers treat them the same way
+    for k, name in ((3, "N"), (6, "P")):
+        cigar, seq, qual = sample_read(k)
+        try:
+            kind, val, norm, muts, me, ev = fold_parse_read(repo, cigar, seq, qual)
+            table = collections.defaultdict(dict)
+            for p, l in norm.items():
+                table[p]["_"] = list(l)
+            for (p, o), l in muts.items():
+                table[p].setdefault(o, []).extend(l)
+            tot = real_total(repo, table)
+            gene = sorted(p for p in table for _ in range(int(tot(p))))
+            neutral = depth_positions_cn(repo, cigar)
+            profile = depth_positions_profile(repo, cigar)
+        except (Unfoldable, Raised) as e:
+            res.err("C07.R3", f"depth counter outside folding language (op {name}): {e}")
+            return
+        res.ob("C07.R3", cnf, cnf, gene == neutral == profile,
+               expected=f"op {name}: gene pileup, neutral-region counter and profile scanner count the same reference positions",
+               found=f"gene {gene}; neutral {neutral}; profile {profile}",
+               clause="exactly 2.0 in every region the profile covers when the sample is the very sample the profile was generated from",
+               key=f"sibling-depth:{name}")
     try:
         unaligned = depth_positions_profile(repo, None)
     except Unfoldable as e:
@@ -466,6 +489,8 @@ MUTANTS = [
     dict(name="R3 neutral counter ignores deletions (seeded C07_2 shape)", module="sam", expect="C07.R3",
          old="                    for op, size in read.cigartuples:\n                        if op in [0, 7, 8, 2]:\n                            for i in range(size):\n                                self._dump_cn[start + i] += 1\n                            start += size",
          new="                    for b0, b1 in read.get_blocks():\n                        for i in range(b0, b1):\n                            self._dump_cn[i] += 1"),
+    dict(name="R3 profile scanner alone follows reference skips (seed C07_e1)", module="profile", expect="C07.R3",
+         old="                            elif op == 1:\n                                s_start += size\n", new="                            elif op == 3:\n                                start += size\n                            elif op == 1:\n                                s_start += size\n"),
     dict(name="R3 neutral counter drops '='", module="sam", expect="C07.R3",
          old="                        if op in [0, 7, 8, 2]:", new="                        if op in [0, 8, 2]:"),
     dict(name="R3 profile scanner counts insertions", module="profile", expect="C07.R3",
